@@ -47,13 +47,16 @@ def run_contract(reg, c, nat, inputs, fn=None):
         when = (c.raises[decl] or {}).get("when")
         return {"status": "ok", "observed": {"exception": cls}}
     env["result"] = result
+    n_ne = 0
     try:
         for text, ok in nat.check(ens, env, oldvals):
             if ok is False:
                 return {"status": "fail", "why": "postcondition false: %s" % text, "observed": {"result": _short(result)}, "clause": text}
+            if ok is not True:
+                n_ne += 1       # a clause that could not be evaluated natively says nothing: the case does not count as non-trivial
     except Exception as e:
         return {"status": "skip", "why": "postcondition not evaluable on this input: %r" % e}
-    return {"status": "ok", "observed": {"result": _short(result)}}
+    return {"status": "ok", "observed": {"result": _short(result)}, "nontrivial": n_ne == 0}
 
 
 def _short(v):
